@@ -41,6 +41,11 @@ func init() {
 				ruleLockedWrapper(c, a.cacheA)
 				ruleCacheMiddleware(c, a, set("hit-does-not-forward", "hit-serves-stored", "forward-once", "entry-of-request-key", "completion-only-by-fetcher"))
 				ruleProxyMiddleware(c, a, set("forward-once"))
+				ruleGetOrCreate(c)
+				ruleShardFunction(c)
+				ruleEntryWriters(c, a.cacheA)
+				ruleKey(c)
+				ruleKeyImmutable(c)
 			})
 		})
 	register("C02",
@@ -103,5 +108,74 @@ func init() {
 				ruleCompletionPaths(c, a.cacheA, set("completes-on-every-path"))
 				ruleDrainShape(c, a.cacheA)
 			})
+		})
+	register("C06",
+		"Decides ownership and identity of the key bytes: the key is a buffer allocated per request holding METHOD SP HOST SP REQUEST-URI back to back; nothing it flows into writes, appends to or reslices it (the LRU keeps a zero-copy view); entries are looked up, inserted and removed by the whole key, the hash only picks the shard; every store back end addresses its record by the whole key; on a miss the entry handed out is freshly allocated (never recycled or shared between keys); unsafe conversions are confined to the two zero-copy helpers. Hash collision behaviour is irrelevant given full-key lookup.",
+		nil, func(c *Ctx) {
+			withAnchors(c, func(a *serverAnchors) {
+				ruleKey(c)
+				ruleKeyImmutable(c)
+				ruleUnsafeConfined(c)
+				ruleGetOrCreate(c)
+				ruleShardFunction(c)
+				ruleStoreKeys(c)
+				ruleEntryWriters(c, a.cacheA)
+				ruleEntryContainers(c, a.cacheA)
+				ruleCacheMiddleware(c, a, set("entry-of-request-key", "hit-serves-stored"))
+			})
+		})
+	register("C11",
+		"Decides, for every int size: the limit passed to each shard's lru.New is >= 1 (0 means unlimited in groupcache/lru) and the limits add up to at most the configured size (limit = size / number of shards); shards are constructed only by NewDispatcher and no pike code changes an lru.Cache's limit or eviction hook; cache entries are retained by nothing but the bounded LRU. LRU order inside the dependency is not analysed.",
+		[]string{"groupcache/lru: MaxEntries == 0 means no limit; Add evicts the oldest entry beyond MaxEntries"}, func(c *Ctx) {
+			withAnchors(c, func(a *serverAnchors) {
+				ruleCapacity(c)
+				ruleEntryContainers(c, a.cacheA)
+				ruleGetOrCreate(c)
+			})
+		})
+	register("C18",
+		"Decides that a purge removes the key from the shard the lookup consults (same shard function, whole key) on every path and deletes the persisted record whenever a store is configured; the unnamed form visits every cache and never stops early, the named form touches one; a purge writes no entry state and takes no entry lock, so it can neither block on nor strand an in-flight fetch. The history clause about a purge racing a fetch that later re-persists is not decided.",
+		nil, func(c *Ctx) {
+			withAnchors(c, func(a *serverAnchors) {
+				rulePurge(c, a.cacheA)
+				rulePurgeAll(c)
+				ruleShardFunction(c)
+				ruleEntryWriters(c, a.cacheA)
+			})
+		})
+	register("C05",
+		"Decides label/bytes agreement and provenance on every path: each encoding label handed to a client is paired with the stored variant of that coding, the raw body, or a transcode of the raw body; the raw body is RawBody, else gunzip(GzipBody), else brotli-decode(BrBody); upstream bodies are filed under exactly the variant their encoding names and every other documented encoding is decoded by its own codec; Fill writes label, body, status and header of one negotiation; the stored header is a deep copy minus only the fields pike recomputes; pre-compression drops the raw body only when both variants exist; the lz4 destination covers the format's maximum expansion. Byte-identity of codec round trips is not decidable statically.",
+		nil, func(c *Ctx) {
+			withAnchors(c, func(a *serverAnchors) {
+				ruleDecisionTable(c)
+				ruleRawProvenance(c)
+				ruleFill(c)
+				ruleIngest(c)
+				ruleIgnoredHeaders(c)
+				ruleCompressVariants(c)
+				ruleDecoderDispatch(c)
+				ruleLZ4Bound(c)
+				ruleProxyMiddleware(c, a, set("response-built", "location-edits-order"))
+				ruleCacheMiddleware(c, a, set("hit-serves-stored"))
+			})
+		})
+	register("C13",
+		"Decides the negotiation logic completely: the function from (accept-br, accept-gzip, has-br, has-gzip, should-compress) to (label, body provenance) is extracted from the code's paths and compared with the documented decision list on all 32 cells, with determinism; should-compress is false iff all variants are <= the minimum length and otherwise the content-type filter (default when unset) decides; cacheable responses are compressed once with the best-compression profile before publication and nowhere else; each response carries the server's compress settings. Substring matching of Accept-Encoding tokens and q-values are outside the statement.",
+		nil, func(c *Ctx) {
+			withAnchors(c, func(a *serverAnchors) {
+				ruleDecisionTable(c)
+				ruleThreshold(c)
+				rulePrecompress(c, a)
+				ruleCompressVariants(c)
+				ruleProxyMiddleware(c, a, set("server-settings"))
+			})
+		})
+	register("C12",
+		"Decides stream finalisation order (the compressing writer is closed on every successful path and the buffer is not read before that), level clamping for every int (the value reaching gzip.NewWriterLevel is in [-2,9], brotli's in [0,11]), propagation of every codec library error, the lz4 destination bound (a short-buffer failure is final only at 255 x input) and the decoder dispatch. That the codecs are exact inverses for every byte string and never panic on malformed input is numeric behaviour of third-party libraries: not applicable to static analysis.",
+		nil, func(c *Ctx) {
+			ruleEncoders(c)
+			ruleLZ4Bound(c)
+			ruleDecoderErrors(c)
+			ruleDecoderDispatch(c)
 		})
 }
